@@ -1295,33 +1295,173 @@ func ruleFinishOnlyVerified(r *Report) {
 	r.Rule(rule, 1, "recovery queues a compaction for roll-forward (which deletes the inputs) only on the success edge of reading the metadata record from its flag file")
 	p := r.P
 	found := false
+	isGrow := func(s Site) bool {
+		st, ok := s.Instr.(*ssa.Store)
+		if !ok || !isCell(st.Addr) {
+			return false
+		}
+		if c, ok := st.Val.(*ssa.Call); ok && CalleeKey(c) == "builtin.append" {
+			if sl, ok := c.Type().Underlying().(*types.Slice); ok && strings.HasSuffix(typeShort(sl.Elem()), "CompactionMetadata") {
+				return true
+			}
+		}
+		return false
+	}
+	root := p.Func("simpledb.DB.repairCompactions")
+	var scope []*ssa.Function
+	if root != nil {
+		for _, fn := range moduleReach(p, closuresOf(root)) {
+			if pk := fnPkg(fn); pk != nil && shortPkg(pk.Path()) == "simpledb" {
+				scope = append(scope, fn)
+			}
+		}
+	}
+	for _, fn := range scope {
+		var grows []Site
+		eachInstr(fn, func(s Site) {
+			if isGrow(s) {
+				grows = append(grows, s)
+			}
+		})
+		rd := CallsIn(fn, Suffix("ReaderI.ReadNext"))
+		o := &order{r, p}
+		switch {
+		case len(grows) > 0 && len(rd) > 0:
+			found = true
+			r.Saw(fn)
+			o.OnlyAfterSuccess(rule, rule+"/"+FuncKey(fn), fn, "reading the flag record", rd, "queueing the compaction for roll-forward", grows, nil)
+			o2 := CallsIn(fn, Suffix("OpenableI.Open", "ReaderI.Open"))
+			o.OnlyAfterSuccess(rule, rule+"/"+FuncKey(fn)+"/after-open", fn, "opening the flag file", o2, "queueing the compaction for roll-forward", grows, nil)
+		case len(grows) > 0:
+			// the record is read by a helper: queueing only on the success edge of that helper's call …
+			var helperCalls []Site
+			var helpers []*ssa.Function
+			eachInstr(fn, func(s Site) {
+				c, ok := s.Instr.(*ssa.Call)
+				if !ok {
+					return
+				}
+				sc := c.Call.StaticCallee()
+				if sc == nil || !inModule(sc) {
+					return
+				}
+				for _, g := range moduleReach(p, []*ssa.Function{sc}) {
+					if len(CallsIn(g, Suffix("ReaderI.ReadNext"))) > 0 {
+						helperCalls = append(helperCalls, s)
+						helpers = append(helpers, sc)
+						return
+					}
+				}
+			})
+			if len(helperCalls) == 0 {
+				continue
+			}
+			found = true
+			r.Saw(fn)
+			o.OnlyAfterSuccess(rule, rule+"/"+FuncKey(fn), fn, "reading the flag record (helper)", helperCalls, "queueing the compaction for roll-forward", grows, nil)
+			// … and the helper succeeds only after it opened the file and read the record
+			for _, h := range helpers {
+				r.Saw(h)
+				hrd := CallsIn(h, Suffix("ReaderI.ReadNext"))
+				hop := CallsIn(h, Suffix("OpenableI.Open", "ReaderI.Open"))
+				o.OnlyAfterSuccess(rule, rule+"/"+FuncKey(h)+"/success-after-read", h, "reading the flag record", hrd, "returning success", nilReturns(h), nil)
+				o.OnlyAfterSuccess(rule, rule+"/"+FuncKey(h)+"/after-open", h, "opening the flag file", hop, "returning success", nilReturns(h), nil)
+			}
+		}
+	}
+	if !found {
+		r.Missing(rule, rule+"/repairCompactions", "flag read not found in repairCompactions")
+	}
+	// … and the two verdicts exclude each other: nothing fallible may still run (a deferred Close of the flag file that
+	// writes the function's error) after a folder was queued for roll-forward, otherwise the same folder is also queued
+	// for deletion — the output is deleted first and the inputs after it
 	for _, fn := range p.FuncsOfPkg("simpledb") {
 		if !strings.HasPrefix(FuncKey(fn), "simpledb.DB.repairCompactions") {
 			continue
 		}
-		rd := CallsIn(fn, Suffix("ReaderI.ReadNext"))
-		if len(rd) == 0 {
-			continue
-		}
-		found = true
-		r.Saw(fn)
-		// stores that grow the roll-forward list: Store(cell, append(load cell, x)) where x is a *CompactionMetadata
-		var grows []Site
+		var grows, dels []Site
 		eachInstr(fn, func(s Site) {
 			st, ok := s.Instr.(*ssa.Store)
 			if !ok || !isCell(st.Addr) {
 				return
 			}
 			if c, ok := st.Val.(*ssa.Call); ok && CalleeKey(c) == "builtin.append" {
-				if sl, ok := c.Type().Underlying().(*types.Slice); ok && strings.HasSuffix(typeShort(sl.Elem()), "CompactionMetadata") {
-					grows = append(grows, s)
+				if sl, ok := c.Type().Underlying().(*types.Slice); ok {
+					if strings.HasSuffix(typeShort(sl.Elem()), "CompactionMetadata") {
+						grows = append(grows, s)
+					} else if bt, isB := sl.Elem().Underlying().(*types.Basic); isB && bt.Kind() == types.String {
+						dels = append(dels, s)
+					}
 				}
 			}
 		})
-		o := &order{r, p}
-		o.OnlyAfterSuccess(rule, rule+"/"+FuncKey(fn), fn, "reading the flag record", rd, "queueing the compaction for roll-forward", grows, nil)
-		o2 := CallsIn(fn, Suffix("OpenableI.Open", "ReaderI.Open"))
-		o.OnlyAfterSuccess(rule, rule+"/"+FuncKey(fn)+"/after-open", fn, "opening the flag file", o2, "queueing the compaction for roll-forward", grows, nil)
+		if len(grows) > 0 {
+			key := rule + "/" + FuncKey(fn) + "/verdicts-exclusive"
+			late := ""
+			eachInstr(fn, func(s Site) {
+				d, ok := s.Instr.(*ssa.Defer)
+				if !ok {
+					return
+				}
+				var lit *ssa.Function
+				if mc, isMC := d.Call.Value.(*ssa.MakeClosure); isMC {
+					lit, _ = mc.Fn.(*ssa.Function)
+				} else if f, isF := d.Call.Value.(*ssa.Function); isF {
+					lit = f
+				}
+				if lit == nil {
+					return
+				}
+				eachInstr(lit, func(t Site) {
+					if st, isSt := t.Instr.(*ssa.Store); isSt && isErrorType(st.Val.Type()) {
+						if _, isFree := st.Addr.(*ssa.FreeVar); isFree {
+							late = p.Pos(d.Pos())
+						}
+					}
+				})
+			})
+			if late != "" {
+				r.Bad(rule, key, grows[0].Pos(), "the folder is queued for roll-forward inside a function whose deferred call (registered at "+late+") can still turn its result into an error: when closing the flag file fails (EIO), the same folder is queued for deletion as well — recovery deletes the compaction's output, then all of its inputs, and the rename fails: three tables and the compaction folder become an empty directory")
+			} else {
+				r.OK(rule, key, grows[0].Pos(), "queued for roll-forward only after everything that can fail has run")
+			}
+		}
+		if len(dels) > 0 {
+			key := rule + "/" + FuncKey(fn) + "/io-failure-is-not-malformed"
+			classified := false
+			for _, d := range dels {
+				for _, b := range liveBlocks(fn) {
+					if !b.Dominates(d.Block) {
+						continue
+					}
+					cnd, _, _, _, _, ok := effCond(b)
+					if !ok {
+						continue
+					}
+					if valueDependsOn(cnd, func(x ssa.Value) bool {
+						c, isC := x.(*ssa.Call)
+						if !isC {
+							return false
+						}
+						switch CalleeKey(c) {
+						case "errors.As", "os.IsNotExist", "errors.Is":
+							return true
+						}
+						if sc := c.Call.StaticCallee(); sc != nil && inModule(sc) && sc.Blocks != nil {
+							return len(CallsIn(sc, Keys("errors.As", "os.IsNotExist", "errors.Is"))) > 0
+						}
+						return false
+					}) {
+						classified = true
+					}
+				}
+			}
+			if classified {
+				r.OK(rule, key, dels[0].Pos(), "a folder is queued for deletion only after the failure was classified (absent / unreadable content vs. I/O failure)")
+			} else {
+				r.Bad(rule, key, dels[0].Pos(), "any failure to read the success flag (EMFILE or EIO on open / read / stat) counts as \"folder corrupted\" and deletes a finished compaction: when its install had already removed an input, that input's records are gone (28 of 284 keys in the demonstration) and Open returns nil")
+			}
+		}
 	}
 	if !found {
 		r.Missing(rule, rule+"/repairCompactions", "flag read not found in repairCompactions")
